@@ -97,6 +97,12 @@ def _analyse(prog, om, f, crec, nrec, counters, creators, summ):
         elif k == 'BinaryOperator' and x.get('opcode') == '=':
             tgt = strip(children(x)[0])
             kind = 'zero' if int_value(children(x)[1]) == 0 else 'set'
+        elif k == 'CallExpr' and len(children(x)) >= 3 and int_value(children(x)[2]) == 0 and \
+                (strip(children(x)[0]).get('referencedDecl') or {}).get('name') in ('memset', '__builtin_memset'):
+            # memset(&X->counter, 0, n): a zero fill that starts at the counter field
+            d = strip(children(x)[1])
+            if d.get('kind') == 'UnaryOperator' and d.get('opcode') == '&':
+                tgt, kind = strip(children(d)[0]), 'zero'
         if tgt is not None and tgt.get('kind') == 'MemberExpr' and tgt.get('_field') and \
                 tgt['_field'][0] == crec and tgt['_field'][1] == counters[0]:
             return kind
